@@ -470,6 +470,13 @@ func findMissingOp(c *run.Case, w *run.Worker, r *gen.Rng, which int, ba blobsto
 				continue
 			}
 			any = true
+			if len(cl.digests) == 0 && len(inputs) > 0 {
+				// "asks each shard only about its own digests": a shard that
+				// owns none of the requested digests has nothing to be asked;
+				// contacting it couples the request to an unrelated shard's
+				// availability.
+				c.Violation(site+":shard-owning-no-requested-digest-contacted", "shard %s was sent a FindMissing call with an empty digest set for a request of %d digests, none of which it owns (its answer or failure %v becomes part of the result)", showKey(s.key), len(inputs), cl.err)
+			}
 			c.Logf("FindMissing via %d: shard %s asked about %d digests -> err=%v answer=%d", which, showKey(s.key), len(cl.digests), cl.err, len(cl.answer))
 			if cl.err != nil {
 				failures = append(failures, failure{s.key, cl.err})
